@@ -778,6 +778,92 @@ func unpackMain(argv []string) {
 		}
 	}
 	thread := &starlark.Thread{Name: "c08u"}
+	// wide parameter lists: UnpackArgs keeps the set of supplied parameters in a 64-bit word for fewer than 64
+	// parameters and in a map otherwise; parameter counts around that threshold, with few or many arguments,
+	// named arguments at low and high indices, and duplicates of them
+	for _, n := range []int{62, 63, 64, 65, 66, 70, 130} {
+		ps := make([]uParam, n)
+		for i := range ps {
+			m := "opt"
+			if i < 2 {
+				m = "plain"
+			} else if i%7 == 3 {
+				m = "optnone"
+			}
+			ps[i] = uParam{fmt.Sprintf("p%d", i), m, "value"}
+		}
+		idxs := []int{1, 2, 31, 32, 61, 62, 63, 64, 65, 69, 129}
+		id := 1
+		val := func() uArg { id++; return uArg{T: "string", ID: id} }
+		for _, npos := range []int{0, 2, 5, n} {
+			for _, a := range idxs {
+				if a >= n {
+					continue
+				}
+				for _, b := range append([]int{-1, -2, -3}, idxs...) { // -1: no second keyword; -2: an undeclared one; -3: all other parameters by name first
+					if b >= n {
+						continue
+					}
+					var args []uArg
+					for i := 0; i < npos; i++ {
+						args = append(args, val())
+					}
+					var kw []uKw
+					if npos < 2 {
+						kw = append(kw, uKw{"p0", val()}, uKw{"p1", val()})
+					}
+					if b == -3 && npos < n {
+						for i := npos; i < n; i++ {
+							if i != a && i > 1 {
+								kw = append(kw, uKw{ps[i].Name, val()})
+							}
+						}
+					}
+					kw = append(kw, uKw{ps[a].Name, val()})
+					switch {
+					case b == -2:
+						kw = append(kw, uKw{"w", val()})
+					case b == -3:
+						kw = append(kw, uKw{ps[a].Name, val()})
+					case b >= 0:
+						kw = append(kw, uKw{ps[b].Name, val()})
+					}
+					obs := runUnpack(thread, ps, args, kw)
+					spec := specUnpack(ps, args, kw)
+					total++
+					cls := obs.Err
+					if cls == "" {
+						cls = "ok"
+					} else if strings.HasPrefix(cls, "other:") {
+						cls = "other"
+					}
+					dist["UnpackArgs(wide):"+cls]++
+					bad := !sameU(obs, spec)
+					if bad {
+						mism++
+						key := fmt.Sprintf("wide/%s/%s", obs.Err, spec.Err)
+						mismKeys[key]++
+						if mismKeys[key] > 3 {
+							continue
+						}
+					}
+					if bad || (n == 65 && npos == 2 && (a == 64 || a == 2) && (b == a || b == -1)) {
+						c := &uCase{Kind: "ucase", Args: args, Obs: obs, Spec: spec, Bad: bad, Coq: true, Kw: [][2]any{}}
+						if c.Args == nil {
+							c.Args = []uArg{}
+						}
+						for _, p := range ps {
+							c.Ps = append(c.Ps, [3]string{p.Name, p.Marker, p.Kind})
+						}
+						for _, e := range kw {
+							c.Kw = append(c.Kw, [2]any{e.K, e.A})
+						}
+						printed = append(printed, c)
+					}
+				}
+			}
+		}
+	}
 	// UnpackPositionalArgs: kinds lists of length 0..3, min 0..len, 0..4 arguments, with/without kwargs
 	var klists [][]string
 	var krec func(cur []string)
